@@ -73,6 +73,21 @@ def check(ctx):
                            f"dynamic dispatch can select {ov.qualname}, which does not accept keyword(s) {missing}: "
                            f"{m.qualname} raises TypeError for every {ov.cls.name} object",
                            clause="rendering never raises")
+    # printers hand every option they accept to to_string()
+    n_pr = 0
+    for cq in (DF, VEC, LOD):
+        pm = repo.cls(cq).methods.get("print_")
+        if pm is None:
+            continue
+        tcalls = [c for f, c in calls_in(pm) if is_self_call(f, c) and c.func.attr == "to_string"]
+        for p in pm.kwonly + pm.params[1:]:
+            n_pr += 1
+            fw = any(forwarded(c, p) for c in tcalls)
+            ctx.ob("FWD-override", pm, f"print_ option {p} reaches to_string", tcalls[0] if tcalls else pm.node, fw,
+                   f"{p} is passed on" if fw else
+                   f"{pm.qualname} accepts {p!r} but does not pass it to to_string(): print_({p}=...) prints with the default",
+                   clause="all max_rows/max_width/truncate_width settings")
+    ctx.count("options of the print_ methods", n_pr, 4)
     for ov in [m for c in repo.classes.values() for m in c.methods.values()
                if m.name in ENTRY_NAMES and m.cls is not None and repo.subclasses(m.cls) == []
                and any(isinstance(b, type(m.cls)) and m.name in b.methods for b in repo.mro(m.cls)[1:] if not isinstance(b, str))]:
